@@ -1,5 +1,6 @@
 mod ctl;
 mod dut;
+mod e1;
 mod env;
 mod props;
 mod report;
